@@ -273,31 +273,57 @@ Print Assumptions exn_macro_shapes.
 (* The five state-changing C functions (exception_try, exception_try_end, exception_try_fail,
    exception_throw, exception_catch; Exception_Len and Exception_Buffer inlined) are TRANSLATED by
    tools/exn_symex.py into state transformers over the C view of the record (Generated.ExnTr); each
-   simulates the machine's function through abs (stack = buffers[depth-1] .. buffers[0]).  Statement
-   order, temporaries and index arithmetic of the C text are free; its effect is not. *)
+   simulates the machine's function through abs (stack = buffers[depth-1] .. buffers[0]), on every C
+   state that satisfies the record's invariant minv.  Statement order, temporaries, helper functions
+   and index arithmetic of the C text are free; its effect is not.  The flags of the machine
+   (clear_active_on_catch, throw_records_obj_after_format, try_keeps_obj) are read off the translation
+   on probe states; these theorems check them on all states. *)
 Theorem exn_tie_try : forall env s,
+  minv exc_max_depth (abs s) ->
   sim (ExnTr.tr_exception_try env s) (m_try exc_max_depth try_keeps_obj env (abs s)).
 Proof. exact ExnTie.tie_try. Qed.
 Print Assumptions exn_tie_try.
 
-Theorem exn_tie_try_end : forall s, sim (ExnTr.tr_exception_try_end s) (m_try_end (abs s)).
+Theorem exn_tie_try_end : forall s,
+  minv exc_max_depth (abs s) -> sim (ExnTr.tr_exception_try_end s) (m_try_end (abs s)).
 Proof. exact ExnTie.tie_try_end. Qed.
 Print Assumptions exn_tie_try_end.
 
-Theorem exn_tie_try_fail : forall s, sim (ExnTr.tr_exception_try_fail s) (m_try_fail (abs s)).
+Theorem exn_tie_try_fail : forall s,
+  minv exc_max_depth (abs s) -> 1 <= ExnTr.c_depth s ->
+  sim (ExnTr.tr_exception_try_fail s) (m_try_fail (abs s)).
 Proof. exact ExnTie.tie_try_fail. Qed.
 Print Assumptions exn_tie_try_fail.
 
-Theorem exn_tie_catch : forall fs s,
-  sim (ExnTr.tr_exception_catch (fun f o => Nat.eqb (kind_of f) (kind_of o)) fs s)
+Theorem exn_tie_catch : forall istuple fs s,
+  minv exc_max_depth (abs s) ->
+  sim (ExnTr.tr_exception_catch (fun f o => Nat.eqb (kind_of f) (kind_of o)) istuple fs s)
       (m_catch clear_active_on_catch fs (abs s)).
 Proof. exact ExnTie.tie_catch. Qed.
 Print Assumptions exn_tie_catch.
 
 Theorem exn_tie_throw : forall o m s,
+  minv exc_max_depth (abs s) ->
   sim (ExnTr.tr_exception_throw (set_msg m) o s) (m_throw throw_records_obj_after_format o m (abs s)).
 Proof. exact ExnTie.tie_throw. Qed.
 Print Assumptions exn_tie_throw.
+
+(* The hypotheses of the tie theorems hold wherever the machine applies a function: every state it
+   produces satisfies the record's invariant minv (depth within the array, live slots not NULL), and
+   a jump in flight carries the state it started from, so exception_try_fail — reached only when a
+   jump lands — runs with a buffer on the stack. *)
+Theorem exn_machine_stays_in_domain : forall max clr oaf tko p st tr r st',
+  minv max st -> mrun max clr oaf tko p st = (tr, r, st') -> minv max st'.
+Proof. exact ExnTie.mrun_inv. Qed.
+Print Assumptions exn_machine_stays_in_domain.
+
+Theorem exn_jump_carries_its_buffer : forall max clr oaf tko p st tr t s,
+  mrun max clr oaf tko p st = (tr, MJump t, s) -> exists b, bufs s = t :: b.
+Proof. exact ExnTie.mjump_state. Qed.
+Print Assumptions exn_jump_carries_its_buffer.
+
+Example exn_tie_domain_nonvacuous : minv exc_max_depth st_init /\ minv exc_max_depth (MS (Some 3) 1 [2; 1] true).
+Proof. split; (split; [apply PeanoNat.Nat.leb_le; vm_compute; reflexivity | repeat constructor; discriminate]). Qed.
 
 (* the two functions that only print (diagnostic + exit(EXIT_FAILURE); the signal table) stay tied by text *)
 Theorem exn_source_shapes :
